@@ -13,7 +13,7 @@ from nix_manipulator.expressions.expression import (
     TypedExpression,
     coerce_expression,
 )
-from nix_manipulator.expressions.layout import empty_line
+from nix_manipulator.expressions.layout import empty_line, point_row
 from nix_manipulator.expressions.trivia import (
     apply_trailing_trivia,
     format_trivia,
@@ -40,7 +40,7 @@ def process_list(node: Node):
         """Allow inline comments only when they remain on the same line."""
         return (
             prev is not None
-            and comment_node.start_point.row == prev.end_point.row
+            and point_row(comment_node.start_point) == point_row(prev.end_point)
             and bool(items)
         )
 
